@@ -18,7 +18,10 @@ CONSTANTS
   Brokens,     \* unrelated errors: subset of {"none","syntax","type"}
   MainSigs,    \* cli: variants of `main` in the root module: subset of {"none","unit","param","ret"}
   RunNames,    \* cli: function names passed explicitly to `run`
-  SubMain      \* cli: set of BOOLEAN: a decoy `fn main()` in the second module
+  SubMain,     \* cli: set of BOOLEAN: a decoy `fn main()` in the second module
+  BodyForms,   \* statement forms of test bodies: subset of Bodies
+  FnPositions, \* where functions / helper declarations stand: subset of {"first","last","mixed"}
+  NoDups       \* BOOLEAN: leave out packages with duplicate test names (body families)
 
 Code(s) == CASE s = "a"    -> <<97>>
              [] s = "b"    -> <<98>>
@@ -34,14 +37,16 @@ Code(s) == CASE s = "a"    -> <<97>>
 ModSeqs == {<<Root>>} \cup {<<Root, <<Code(s)>>>> : s \in SubNames}
 MaxT(ms) == IF Len(ms) = 1 THEN MaxTests1 ELSE MaxTests2
 
-BaseTest(ms) == [mod : ToSet(ms), name : {Code(n) : n \in TNames}, out : {"accept", "reject"}]
-BaseSeqs(ms) == UNION {[1..n -> BaseTest(ms)] : n \in 0..MaxT(ms)}
+BaseTest(ms) == [mod : ToSet(ms), name : {Code(n) : n \in TNames}, out : {"accept", "reject"},
+                 body : BodyForms]
+Distinct(ts) == \A i, j \in 1..Len(ts) : i < j => (ts[i].mod # ts[j].mod \/ ts[i].name # ts[j].name)
+BaseSeqs(ms) == {ts \in UNION {[1..n -> BaseTest(ms)] : n \in 0..MaxT(ms)} : NoDups => Distinct(ts)}
 
 (* at most one test body contains a call *)
 Probes(n) == {[at |-> 0, callee |-> NoCall]} \cup [at : 1..n, callee : {Code(c) : c \in CallNames}]
 WithCall(ts, pr) ==
   [i \in 1..Len(ts) |->
-     [mod |-> ts[i].mod, name |-> ts[i].name, out |-> ts[i].out,
+     [mod |-> ts[i].mod, name |-> ts[i].name, out |-> ts[i].out, body |-> ts[i].body,
       call |-> IF i = pr.at THEN pr.callee ELSE NoCall]]
 
 Fn(m, n, s) == [mod |-> m, name |-> n, sig |-> s]
@@ -71,8 +76,10 @@ MCInit ==
   \E pr \in Probes(Len(ts)) :
   \E F \in FuncSets(ms) :
   \E br \in Brokens :
+  \E fp \in FnPositions :
   \E c \in Cmds :
-     Init([mods |-> ms, tests |-> WithCall(ts, pr), funcs |-> SetToSeq(F), broken |-> br], c)
+     Init([mods |-> ms, tests |-> WithCall(ts, pr), funcs |-> SetToSeq(F), broken |-> br,
+           fnpos |-> fp], c)
 
 MCSpec == MCInit /\ [][Next]_vars
 
